@@ -2,6 +2,7 @@ package main
 
 import (
 	"fmt"
+	"go/types"
 	"os"
 	"runtime/debug"
 	"sort"
@@ -138,6 +139,9 @@ func newMachine(P *Program, ctx *Ctx, solver *Solver, cfg *JobCfg, stats *Stats)
 	m.violSeen = map[string]int{}
 	m.varMemo = map[int][]int{}
 	m.qmemo = map[string]Result{}
+	m.offCache = map[*types.Struct][]int64{}
+	m.finfo = map[*ssa.Function]*funcInfo{}
+	m.sizeCache = map[types.Type]int{}
 	m.stepLimit = cfg.StepLimit
 	m.poolPolicy = cfg.PoolPolicy
 	m.allocBytes = ctx.Const(0, 64)
